@@ -65,7 +65,7 @@ def isWalker (f : String) : Bool := f == "outl" || f == "toc" || f == "dests" ||
 def pagesStr (r : Outcome (List ObjId)) : String :=
   outS (r.map fun l => toString l.length ++ "," ++ idsStr l)
 
-def evalField (tr : Dict) (os : Objects) (fuel : Nat) (field : String) : String :=
+def evalField (tr : Dict) (os : Objects) (_fuel : Nat) (field : String) : String :=
   let (q, t) : String × ObjId := match field.splitOn ":" with
     | [q, a] => (q, (parseId a).getD (0, 0))
     | _ => (field, (0, 0))
@@ -92,13 +92,13 @@ def evalField (tr : Dict) (os : Objects) (fuel : Nat) (field : String) : String 
       | some d => (getFontEncoding os d).map encStr)
   | "nd" => (match getDictionary os t with
       | none => "err"
-      | some d => outF ((namedDests os fuel d []).map fun r => r.map namedDigest))
+      | some d => outS ((namedDests os d []).map namedDigest))
   | "dests" => (match (catalog tr os).bind (destTree os) with
       | none => "err"
-      | some t => outF ((namedDests os fuel t []).map fun r => r.map namedDigest))
-  | "outl" => outF ((getOutlines tr os fuel).map fun r => r.map fun (l, nm) =>
+      | some t => outS ((namedDests os t []).map namedDigest))
+  | "outl" => outS ((getOutlines tr os).map fun (l, nm) =>
       "[" ++ String.join (l.map outlineDigest) ++ "]," ++ namedDigest nm)
-  | "toc" => outF ((getToc MEM_MAX tr os fuel).map fun r => r.map fun (es, nerr) =>
+  | "toc" => outS ((getToc MEM_MAX tr os).map fun (es, nerr) =>
       toString es.length ++ String.join (es.map fun (lv, pg) => ":" ++ toString lv ++ "." ++ toString pg) ++ "," ++ toString nerr)
   | _ => "bad-field"
 
